@@ -6,5 +6,5 @@ CONSTANTS
   Kinds = {"global", "local", "type", "label", "comdat", "mdname", "string"}
   AsImplemented = FALSE
   EmitFile = "stdout"
-INVARIANTS NoCrash RoundTrip NotAnID OneToken IDRoundTrip Injective UnescapeLaw Emit
+INVARIANTS NoCrash RoundTrip NotAnID OneToken IDRoundTrip Injective UnescapeLaw AltDecodes Emit
 CHECK_DEADLOCK FALSE
